@@ -170,6 +170,11 @@ func DistMatrix(al align.Alignment, weights []float64, model DistModel, range1Mi
 					return
 				}
 				for j := range2Min; j <= range2Max; j++ {
+					// When the two ranges overlap, (j,i) is enumerated as well:
+					// the pair is computed (and its two cells written) only once
+					if j < i && j >= range1Min && j <= range1Max && i >= range2Min && i <= range2Max {
+						continue
+					}
 					if j != i {
 						if seq2, perr = model.Sequence(j); perr != nil {
 							return
